@@ -99,6 +99,7 @@ func scribbleStrings(s []string) {
 func main() {
 	r := lib.Start("C08", "exploration")
 	r.Rule = "PRNG-generated valid OCI documents (1-4 statements over an 18-scope near-miss alphabet (incl. paths of 190-300 characters), optional wildcard/skip statement) x all statement permutations x a 42-path reference alphabet x {digest, none, tag, tag+digest, doubled @} suffixes; blob documents x name alphabet; distinct by (document, permutation, reference); non-trivial = selection succeeds"
+	r.Rule += "; plus notation.Verify over a repository (artifact signed / unsigned / unresolvable) with the library's verifier and a forwarding-only wrapper, sha384/sha512 references, malformed registry parts, and 16 goroutines sharing one verifier"
 	r.Assumptions = []string{"validity of each reference path in the alphabet is tagged by construction from the distribution grammar, not recomputed",
 		"whitespace-only blob policy names are excluded (the statement does not say whether they count as 'no name')"}
 	rng := r.Rand("docs")
